@@ -245,6 +245,9 @@ func (t *TTY) Write(s string) {
 	t.mu.Lock()
 	defer t.mu.Unlock()
 	t.BytesOut += len(s)
+	if Debug {
+		zsim.Logf("tty.write %q", s)
+	}
 	if t.OutClosed {
 		t.WritesClosed += len(s)
 	}
